@@ -7,7 +7,17 @@ import dxlib, vlib, c01, c02
 def parse_san_logs(d, pid2key):
     """returns list of (key, text) — key = '<kind> <top bxdecay0 frame>'"""
     out = {}
+    # UndefinedBehaviorSanitizer reports collected by the harness-side hook (engine/sanhook.hpp): one line per location
+    hook = os.path.join(d, 'ubsan.hook')
+    if os.path.exists(hook):
+        for ln in open(hook, errors='replace'):
+            m = re.match(r'UBSAN ([\w-]+): (.*) at (\S+):(\d+)$', ln.strip())
+            if m:
+                key = '%s@%s:%s' % (m.group(1), os.path.basename(m.group(3)), m.group(4))
+                out.setdefault(key, ('?', ln.strip()))
     for f in sorted(glob.glob(os.path.join(d, 'asan.*')) + glob.glob(os.path.join(d, 'ubsan.*'))):
+        if f.endswith('.hook'):
+            continue
         pid = f.rsplit('.', 1)[-1]
         txt = open(f, errors='replace').read()
         # split into reports
@@ -61,6 +71,7 @@ def run(tier, rep):
         env = dict(os.environ)
         env['ASAN_OPTIONS'] = 'halt_on_error=0:detect_leaks=0:log_path=%s/asan' % logd
         env['UBSAN_OPTIONS'] = 'halt_on_error=0:print_stacktrace=1:log_path=%s/ubsan' % logd
+        env['VERIF_SAN_LOG'] = os.path.join(logd, 'ubsan.hook')
         gad = os.path.join(logd, 'ga')
         gadata.install_tree(gad)
         env['BXDECAY0_DBD_GA_DATA_DIR'] = gad
